@@ -22,7 +22,7 @@ Init == \/ \E a \in Asts : \E b \in Asts : \E c \in Asts :
              LET d == Doc(a, b, c) IN
              cs = [kind |-> "tree", rendered |-> RenderDoc(d), expected |-> EvalDoc(d, Env), escaped |-> EscapeDoc(RenderDoc(d)),
                    shape |-> SameShape(d, EvalDoc(d, Env))]
-        \/ \E kind \in {"boolean", "integer", "number"} : \E text \in BoolTexts \cup {"0", "1", "2", "3", "42", "0.5", "1.5", "maybe", "3x", "x.y", "", "t", "f", "T", "F"} :
+        \/ \E kind \in {"boolean", "integer", "number"} : \E text \in BoolTexts \cup {"0", "1", "2", "3", "42", "0.5", "1.5", "0.3", "maybe", "3x", "x.y", "", "t", "f", "T", "F"} :
            \E style \in {"var", "default", "split", "quoted"} :
              cs = [kind |-> "typed", ty |-> kind, text |-> text, style |-> style, valid |-> Cast(kind, text), invalid |-> ClearlyInvalid(kind, text),
                    boolValue |-> (kind = "boolean" /\ Cast(kind, text) /\ BoolValue(text))]
